@@ -28,10 +28,12 @@ def main():
         lines.append("| " + " | ".join(r) + " |")
     n = len(rows)
     caught = sum(1 for r in rows if not r[4].startswith("—"))
-    first = sum(1 for r in rows if r[5].startswith("first"))
+    first = sum(1 for r in rows if r[5].startswith(("first", "yes")))
+    cross = sum(1 for r in rows if r[5].startswith("cross"))
     lines.append("")
-    lines.append(f"{n} kept seeds; {caught} reported by the final checks; {first} of them already on the first run, "
-                 f"{caught - first} only after the stated strengthening; {n - caught} still missed.")
+    lines.append(f"{n} kept seeds; {caught} reported by their own property's final check; {first} of them already on the first run by their own property's check, "
+                 f"{cross} on the first run only by another property's check (the rule was then wired into the own property), "
+                 f"{caught - first - cross} only after the stated strengthening (rule missing or planned but unwritten at the time); {n - caught} still missed.")
     p = os.path.join(ROOT, "DESIGN.md")
     s = open(p).read()
     a, b = s.index("<!-- SEED-TABLE-BEGIN -->"), s.index("<!-- SEED-TABLE-END -->")
